@@ -82,7 +82,7 @@ Definition try_code (want : N) (s : text) : N :=
   | Some b => if Nat.eqb (length b) (N.to_nat want) then 0 else 131
   end.
 Definition agree (ok : bool) (c : N) : N := if Bool.eqb ok (c =? 0) then c else 998.
-Definition pk_try_code (s : text) : N := agree (pk_string_ok s) (try_code x_kr_encoded_pk_len s).
+Definition pk_try_code (s : text) : N := agree (pk_string_ok s) (try_code x_kr_encoded_pk_try_len s).
 Definition sk_try_code (s : text) : N := agree (sk_string_ok s) (try_code x_kr_private_key_ct_len s).
 
 Definition run_pk_try (s : text) : obs := pure_obs (pk_try_code s) [].
